@@ -8,7 +8,7 @@ use serde::{Deserialize, Serialize};
 
 use crate::core::{catch, panic_kind, RunOut, Sig, Tier};
 use crate::ds::{build_tree, ser_vec, Alias, DynDs, Path, Sym, Ty, A, ALL_PATHS, ALL_TYS, Q, QUAD_HUFF};
-use crate::gen::{gen_tree_seq, huffman_max_len, Seq, TreeGenCfg};
+use crate::gen::{gen_tree_seq, huffman_max_len, Arrange, Seq, TreeGenCfg};
 use crate::prng::{fnv, stream, Digest, Rng};
 
 #[derive(Clone, Debug, PartialEq, Serialize, Deserialize)]
@@ -150,6 +150,61 @@ pub fn gen_big_case(prop: &str, run_seed: u64, tier: Tier) -> TreeCase {
     if c.orders.len() > 3 {
         // canonical, one seeded, the real hasher
         c.orders = vec![c.orders[0].clone(), c.orders[2].clone(), c.orders[c.orders.len() - 1].clone()];
+    }
+    c
+}
+
+/// Inputs of 2^20 symbols and more (size-dependent construction paths: pre-sizing, single-pass counting, ...),
+/// half of them through `collect()`, a third with a first symbol that occurs nowhere else.
+pub fn gen_huge_case(prop: &str, run_seed: u64, tier: Tier) -> TreeCase {
+    let mut c = gen_case(prop, run_seed, tier);
+    let mut rng = stream(run_seed, "huge");
+    let n = *rng.pick(&[(1usize << 20) - 1, 1 << 20, (1 << 20) + 1, (1 << 20) + 4099, 1_300_000]);
+    let ty_cap = c.ty.max().min(if c.alias.is_huffman() { 1 << 17 } else { u128::MAX });
+    let d_cap = (ty_cap.min(1 << 16) as usize) + 1;
+    let (mut counts, profile, arrange): (Vec<u64>, &str, Arrange) = match rng.below(3) {
+        0 => {
+            // the first symbol occurs once, at position 0
+            let d = rng.urange(3, 40).min(d_cap);
+            let mut v = vec![1u64];
+            let rest = (n as u64 - 1) / (d as u64 - 1);
+            v.extend((1..d).map(|_| rest.max(1)));
+            (v, "huge_first_symbol_unique", *rng.pick(&[Arrange::SortedRuns, Arrange::Periodic, Arrange::SortedRuns]))
+        }
+        1 => {
+            let d = (*rng.pick(&[2usize, 4, 5, 16, 17, 200, 256, 257])).min(d_cap);
+            (vec![(n / d).max(1) as u64; d], "huge_uniform", *rng.pick(&[Arrange::Shuffled, Arrange::Periodic, Arrange::RandomRuns]))
+        }
+        _ => {
+            let d = rng.urange(2, 300).min(d_cap);
+            let mut v: Vec<u64> = (1..d).map(|_| 1 + rng.below(40)).collect();
+            let s: u64 = v.iter().sum();
+            v.push((n as u64).saturating_sub(s).max(1));
+            (v, "huge_heavy", *rng.pick(&[Arrange::Shuffled, Arrange::SortedRuns, Arrange::RandomRuns]))
+        }
+    };
+    let d = counts.len();
+    let step = (ty_cap / d as u128).max(1);
+    let mut vals: Vec<u128> = match rng.below(3) {
+        0 => (0..d as u128).collect(),
+        1 => (0..d as u128).map(|k| ty_cap - k.min(ty_cap)).collect(),
+        _ => (0..d as u128).map(|k| (k * step).min(ty_cap)).collect(),
+    };
+    vals.dedup();
+    counts.truncate(vals.len());
+    c.seq = Seq::Weights {
+        syms: vals.into_iter().map(Sym).collect(),
+        counts,
+        arrange,
+        seed: rng.next_u64(),
+    };
+    c.profile = profile.to_string();
+    if rng.bool() {
+        c.path = Path::Collect;
+    }
+    if c.orders.len() > 2 {
+        // canonical and one seeded order
+        c.orders = vec![c.orders[0].clone(), c.orders[2].clone()];
     }
     c
 }
@@ -677,6 +732,17 @@ pub fn exec(case: &TreeCase) -> RunOut {
                 let mut d2 = Digest::default();
                 sweep(case, &m, c.as_ref(), which, deep, &mut out, &mut d2);
                 out.count("clones_swept", 1);
+            }
+        }
+        // so does an existing tree of the same type (built from other content) after clone_from
+        if which == 0 && case.qseed % 4 == 1 {
+            let small: Vec<u128> = m.seq.iter().rev().take(41).copied().collect();
+            if let Ok(mut dst) = catch(|| build_tree(case.alias, case.ty, Path::FromVec, &small)) {
+                if let Ok(true) = catch(|| dst.clone_from_dyn(t.as_ref())) {
+                    let mut d2 = Digest::default();
+                    sweep(case, &m, dst.as_ref(), which, deep, &mut out, &mut d2);
+                    out.count("clone_from_swept", 1);
+                }
             }
         }
     }
